@@ -383,7 +383,14 @@ void apply_patch(Json& target, const Json& patch, std::error_code& ec)
             auto npath = jsonpatch::detail::definite_path(target,location);
 
             std::error_code insert_ec;
-            jsonpointer::add_if_absent(target,npath,val,insert_ec); // try insert without replace
+            if (npath.empty()) // the root always exists, replace it (so that it can be restored)
+            {
+                insert_ec = jsonpointer::jsonpointer_errc::key_already_exists;
+            }
+            else
+            {
+                jsonpointer::add_if_absent(target,npath,val,insert_ec); // try insert without replace
+            }
             if (insert_ec) // try a replace
             {
                 std::error_code select_ec;
@@ -488,7 +495,14 @@ void apply_patch(Json& target, const Json& patch, std::error_code& ec)
             // add
             std::error_code insert_ec;
             auto npath = jsonpatch::detail::definite_path(target,location);
-            jsonpointer::add_if_absent(target,npath,val,insert_ec); // try insert without replace
+            if (npath.empty()) // the root always exists, replace it (so that it can be restored)
+            {
+                insert_ec = jsonpointer::jsonpointer_errc::key_already_exists;
+            }
+            else
+            {
+                jsonpointer::add_if_absent(target,npath,val,insert_ec); // try insert without replace
+            }
             if (insert_ec) // try a replace
             {
                 std::error_code select_ec;
@@ -534,7 +548,14 @@ void apply_patch(Json& target, const Json& patch, std::error_code& ec)
             // add
             auto npath = jsonpatch::detail::definite_path(target,location);
             std::error_code insert_ec;
-            jsonpointer::add_if_absent(target,npath,val,insert_ec); // try insert without replace
+            if (npath.empty()) // the root always exists, replace it (so that it can be restored)
+            {
+                insert_ec = jsonpointer::jsonpointer_errc::key_already_exists;
+            }
+            else
+            {
+                jsonpointer::add_if_absent(target,npath,val,insert_ec); // try insert without replace
+            }
             if (insert_ec) // Failed, try a replace
             {
                 std::error_code select_ec;
